@@ -76,12 +76,13 @@ class Query:
 
 
 class Unit:
-    def __init__(s, name, cpp, cxxflags=None, ll2c=None, text=None):
+    def __init__(s, name, cpp, cxxflags=None, ll2c=None, text=None, native_cxxflags=None):
         s.name = name
         s.cpp = cpp                # path to wrapper TU (or None when text given)
         s.text = text              # generated wrapper text
         s.cxxflags = cxxflags or []
         s.ll2c = ll2c or []
+        s.native_cxxflags = native_cxxflags   # if set: the native builds (validation/replay) compile the TU with these flags instead
         s.built = None
         s.lock = threading.Lock()
 
@@ -111,9 +112,9 @@ class Ctx:
             f.write(text)
         return p
 
-    def unit(s, name, cpp=None, text=None, cxxflags=None, ll2c=None):
+    def unit(s, name, cpp=None, text=None, cxxflags=None, ll2c=None, native_cxxflags=None):
         if name not in s.units:
-            s.units[name] = Unit(name, cpp, cxxflags, ll2c, text)
+            s.units[name] = Unit(name, cpp, cxxflags, ll2c, text, native_cxxflags)
         return s.units[name]
 
     def cleanup(s):
@@ -160,14 +161,34 @@ def build_unit(ctx, u):
         if rc != 0:
             raise Inconclusive('ll2c failed for unit %s:\n%s' % (u.name, err[-4000:]))
         info = json.load(open(os.path.join(d, 'w.json')))
+        c_native = os.path.join(d, 'w.c')
+        npre = list(u.native_cxxflags) if u.native_cxxflags is not None else pre
+        if '--cut' in u.ll2c or u.native_cxxflags is not None:
+            # the native (translation validation / replay) builds use the same IR translated WITHOUT the cut, so that they
+            # can be compared with the real build; only the CBMC run sees the cut recursion
+            rest = list(u.ll2c)
+            if '--cut' in rest:
+                i = rest.index('--cut')
+                rest = rest[:i] + rest[i + 2:]
+            c_native = os.path.join(d, 'w_full.c')
+            ll_native = os.path.join(d, 'w.ll')
+            if u.native_cxxflags is not None:
+                ll_native = os.path.join(d, 'w_native.ll')
+                rc, out, err, _ = sh([CLANG] + CLANG_FLAGS + npre + incs + [cpp, '-o', ll_native])
+                if rc != 0:
+                    raise Inconclusive('clang (native flags) failed for unit %s:\n%s' % (u.name, err[-4000:]))
+            rc, out, err, _ = sh([sys.executable, os.path.join(LIB, 'll2c.py'), ll_native, '-o', c_native,
+                                  '--include', os.path.join(LIB, 'models.h')] + rest)
+            if rc != 0:
+                raise Inconclusive('ll2c (uncut) failed for unit %s:\n%s' % (u.name, err[-4000:]))
         # real build (g++, sanitizers) for translation validation and replay
         gflags = ['-std=c++17', '-O1', '-g', '-fsanitize=address,undefined', '-fno-sanitize-recover=undefined', '-fno-omit-frame-pointer', '-DTAO_PEGTL_VERIF']
-        rc, out, err, dt3 = sh(['g++'] + gflags + pre + incs + ['-c', cpp, '-o', os.path.join(d, 'real.o')])
+        rc, out, err, dt3 = sh(['g++'] + gflags + npre + incs + ['-c', cpp, '-o', os.path.join(d, 'real.o')])
         if rc != 0:
             raise Inconclusive('g++ failed for unit %s:\n%s' % (u.name, err[-4000:]))
         dt4 = 0
         ir = open(os.path.join(d, 'w.ll')).read()
-        u.built = {'dir': d, 'c': os.path.join(d, 'w.c'), 'h': os.path.join(d, 'w.h'), 'real': os.path.join(d, 'real.o'),
+        u.built = {'dir': d, 'c': os.path.join(d, 'w.c'), 'c_native': c_native, 'h': os.path.join(d, 'w.h'), 'real': os.path.join(d, 'real.o'),
                    'externs': info['externs'], 'defined': info['defined'], 'ir_lines': ir.count('\n'),
                    'build_s': round(dt + dt2 + dt3 + dt4, 2)}
         return u.built
@@ -211,7 +232,7 @@ def build_native(ctx, q, cache, lock):
         inc = ['-I', LIB, '-I', os.path.join(VERIF, 'harness'), '-I', os.path.dirname(q.harness)]
         common = ['-std=gnu11', '-O1', '-w', '-DVF_NATIVE'] + cdefs(q) + inc
         tb = os.path.join(d, 'translated')
-        rc, out, err, _ = sh(['gcc'] + common + ['-DVF_UNIT_C="%s"' % b['c'], q.harness, '-o', tb])
+        rc, out, err, _ = sh(['gcc'] + common + ['-DVF_UNIT_C="%s"' % b['c_native'], q.harness, '-o', tb])
         if rc != 0:
             raise Inconclusive('gcc (translated) failed for %s:\n%s' % (q.name, err[-4000:]))
         ren = ['-Dx_%s=%s' % (re.sub(r'[^A-Za-z0-9_]', '_', e), e) for e in b['externs'] if e not in LIBC_EXTERNS and re.fullmatch(r'[A-Za-z_][A-Za-z0-9_]*', e)]
